@@ -2,8 +2,10 @@ from construct.core import ConstructError
 from construct.core import Subconstruct
 from construct.core import Switch
 from construct.expr import this
+import struct
 
 from smpl_extract.util.fat import RequestedInvalidSector
+from smpl_extract.util.stream import SectorReadError
 
 from .data_types import FileType
 from .data_types import InvalidCharacter
@@ -40,7 +42,15 @@ class FileAdapter(Subconstruct):
                 stream, 
                 **context
             )
-        except (RequestedInvalidSector, InvalidCharacter) as e:
+        except (
+                RequestedInvalidSector, 
+                InvalidCharacter, 
+                SectorReadError, 
+                struct.error
+        ) as e:
+            # also a header that cannot be read completely (a file size 
+            # smaller than the header, an image that ends inside it): 
+            # only this file is unusable
             raise ConstructError from e
 
         return file
